@@ -922,7 +922,13 @@ ASSUMPTIONS += [
     'cryptographic assumption',
     'registered OpenSSH certificate classes always come with a key handler (register_certificate_alg), so the '
     'assert in construct is unreachable from decode_ssh_certificate',
-    'SSHAllowedSigners.validate / WildcardPatternList.matches / import_public_key are abstract',
+    'WildcardPatternList.matches / import_public_key / the SSHAllowedSignersEntry constructor are abstract; inside '
+    'validate_sshsig the answer of SSHAllowedSigners.validate is an arbitrary bool (weaker than its contract, which '
+    'is proved separately together with load)',
+    'no native CPython cross-check (no_replay) for: validate_sshsig on armoured input, generate, _DSAKey.verify_ssh, '
+    '_SKECDSAKey.verify_ssh, '
+    'SSHAllowedSigners.validate / load (abstract entries); construct / _decode_options / validate / load paths lie '
+    'behind loop cuts and are skipped by the cross-check as well',
     'crypto back-end key.verify(...) / der_encode are abstract (a verdict / some bytes)',
 ]
 HASHES = {b'sha256': 32, b'sha512': 64}
@@ -1125,6 +1131,133 @@ def _mk_validate_sshsig(armoured):
 
 validate_sshsig_raw = _mk_validate_sshsig(False)
 validate_sshsig_armoured = _mk_validate_sshsig(True)
+
+
+# ---- SSHAllowedSigners.validate: "a signer the allowed-signers data authorises"
+# plain lines authorise their key itself, cert-authority lines authorise a CA (asked for with ca=True); an entry
+# authorises only if BOTH its key is the one asked about AND its options match (principal, namespace, now).
+ASSUMPTIONS += [
+    'within one SSHAllowedSigners.validate call, entry.match_options(principal, namespace) is a function of the entry '
+    '(the clock does not cross a validity boundary between two loop iterations); key equality is abstract',
+]
+ENTRY_SEQ = 'seq[opaque:Entry]'
+entry_key = z3.Function('attr_Entry_key', opaque_sort('Entry'), opaque_sort('Key'))     # engine name for entry.key
+entry_matches_fn = z3.Function('entry_match_options', opaque_sort('Entry'), StrS, StrS, BoolS)
+
+
+def entry_match_stub(cx):
+    return VBool(entry_matches_fn(cx.recv.z, cx.args[0].z, cx.args[1].z))
+
+
+entry_match_stub.modifies = ()
+
+
+def _authorises(c, e):
+    return z3.And(entry_key(e) == c.arg('key'), entry_matches_fn(e, c.arg('principal'), c.arg('namespace')))
+
+
+def _asked_list(c):
+    return z3.If(c.arg('ca'), c.old('_cert_entries'), c.old('_key_entries'))
+
+
+def signers_validate_post(c):
+    L = _asked_list(c)
+    res = c.truthy(c.result_v)
+    j = z3.Int(fresh_name('j'))
+    some = z3.Exists([j], z3.And(0 <= j, j < z3.Length(L), _authorises(c, L[j])))
+    if c.new_state.env.get('__loop_i__') is not None and concrete_bool(res) is True:
+        i = c.new_state.env['__loop_i__'].z           # returned from inside the loop: the witness is this entry
+        return z3.And(0 <= i, i < z3.Length(L), _authorises(c, L[i]))
+    return res == some
+
+
+signers_validate = Spec(
+    PROP, 'sshsig', 'SSHAllowedSigners.validate', self_class='SSHAllowedSigners',
+    params=dict(key='opaque:Key', principal='str', namespace='str', ca='bool'),
+    classes={'SSHAllowedSigners': {'_cert_entries': ENTRY_SEQ, '_key_entries': ENTRY_SEQ}},
+    stubs={'entry.match_options': entry_match_stub},
+    loops={1: LoopSpec(invariant=lambda c: (lambda jj: z3.And(
+        c.extra['iter'].z == _asked_list(c),
+        z3.ForAll([jj], z3.Implies(z3.And(0 <= jj, jj < c.extra['i']),
+                                   z3.Not(_authorises(c, c.extra['iter'].z[jj]))))))(z3.Int(fresh_name('jj'))))},
+    ensures=[('true-iff-an-entry-of-the-asked-kind-has-this-key-AND-matching-options', signers_validate_post)],
+    returns='bool')
+signers_validate.opaque_attrs = {('Entry', 'key'): 'opaque:Key'}
+signers_validate.no_replay = True        # entries are abstract values: nothing to run natively
+
+
+# ---- SSHAllowedSigners.load: a cert-authority line authorises a CA only, never its key as a plain signer
+entry_options = z3.Function('attr_Entry_options', opaque_sort('Entry'), opaque_sort('EntryOptions'))
+opts_has = z3.Function('contains_EntryOptions_String', opaque_sort('EntryOptions'), StrS, BoolS)    # engine names
+
+
+def is_ca_entry(e):
+    return opts_has(entry_options(e), z3.StringVal('cert-authority'))
+
+
+def entry_ctor_stub(cx):
+    e = cx.fresh('opaque:Entry', 'entry')
+    return [Out(ret=e), Out(exc=VExc('KeyImportError')), Out(exc=VExc('ValueError'))]
+
+
+entry_ctor_stub.modifies = ()
+
+
+ESEQ = z3.SeqSort(opaque_sort('Entry'))
+all_plain = z3.Function('all_plain_entries', ESEQ, BoolS)      # recursive: all_plain([]) ; all_plain(s ++ [e]) = all_plain(s) and not is_ca(e)
+all_ca = z3.Function('all_ca_entries', ESEQ, BoolS)            # recursive: all_ca([])    ; all_ca(s ++ [e])    = all_ca(s) and is_ca(e)
+
+
+def _added(c, name, new_z=None):
+    old = c.ex.get_field(c.ex.entry_state, c.self_ref, name).z
+    cur = c.new(name) if new_z is None else new_z
+    return old, cur, z3.Extract(cur, z3.Length(old), z3.Length(cur) - z3.Length(old))
+
+
+def lists_sorted_by_kind(c):
+    """every entry added since the call began sits in the list of its own kind (and nothing older was touched)"""
+    k0, k1, ak = _added(c, '_key_entries')
+    c0, c1, ac = _added(c, '_cert_entries')
+    return z3.And(z3.PrefixOf(k0, k1), z3.PrefixOf(c0, c1), all_plain(ak), all_ca(ac))
+
+
+def kind_instances(c):
+    """definitional instances (empty list, and snoc for an append made in this iteration); the slice identity the snoc
+    instance is applied through is proved first"""
+    out = [all_plain(z3.Empty(ESEQ)), all_ca(z3.Empty(ESEQ))]
+    head = getattr(c, 'head', None)
+    if head is None:
+        return out
+    for name, pred, want_ca in (('_key_entries', all_plain, False), ('_cert_entries', all_ca, True)):
+        h = c.ex.get_field(head, c.self_ref, name).z
+        n = c.new(name)
+        if n.decl().kind() == z3.Z3_OP_SEQ_CONCAT and n.num_args() == 2 and n.arg(0).eq(h) \
+                and n.arg(1).decl().kind() == z3.Z3_OP_SEQ_UNIT:
+            e = n.arg(1).arg(0)
+            _o, _h, a_head = _added(c, name, h)
+            _o, _n, a_new = _added(c, name)
+            out.append(Prove(a_new == z3.Concat(a_head, z3.Unit(e)), 'added-part-grows-by-the-appended-entry'))
+            out.append(pred(z3.Concat(a_head, z3.Unit(e))) ==
+                       z3.And(pred(a_head), is_ca_entry(e) if want_ca else z3.Not(is_ca_entry(e))))
+    return out
+
+
+signers_load = Spec(
+    PROP, 'sshsig', 'SSHAllowedSigners.load', self_class='SSHAllowedSigners',
+    params=dict(allowed_signers='str'),
+    classes={'SSHAllowedSigners': {'_cert_entries': ENTRY_SEQ, '_key_entries': ENTRY_SEQ}},
+    stubs={'SSHAllowedSignersEntry': entry_ctor_stub},
+    local_types={'line': 'str', 'entry': 'opaque:Entry'},
+    loops={1: LoopSpec(invariant=lists_sorted_by_kind, modifies=['_cert_entries', '_key_entries'],
+                       lemmas=kind_instances)},
+    always=[('cert-authority-lines-only-in-the-CA-list-plain-lines-only-in-the-key-list', lists_sorted_by_kind)],
+    lemmas=kind_instances,
+    raises={'ValueError': True})
+signers_load.opaque_attrs = {('Entry', 'options'): 'opaque:EntryOptions'}
+signers_load.no_replay = True
+
+
+signers_validate_stub.spec_getter = lambda: signers_validate       # arbitrary-bool stub, backed by the contract above
 
 
 # ---- create_sshsig: emits what validate_sshsig parses
@@ -1346,8 +1479,13 @@ def _ecdsa_post(c):
     if ev is None or len(outer) != 1 or len(inner) != 2 or len(der) != 1:
         return z3.BoolVal(False)
     sig = outer[0][1].z
+    sun = z3.Function('sunbe', BytesS, IntS)         # the engine's name for int.from_bytes(.., 'big', signed=True)
+    rs = der[0][1][0]
     return z3.And(_blob_is(c, lambda ss: S_(ss[0])), sig == z3.Concat(S_(inner[0][1].z), S_(inner[1][1].z)),
                   ev[0].z == c.arg('data'), ev[1].z == der[0][1][1].z, c.eq(ev[2], c.oldv('_hash_alg')),
+                  # what the back end sees is DER(r, s) with r the FIRST and s the SECOND mpint of the blob
+                  z3.BoolVal(isinstance(rs, VTuple) and len(rs.items) == 2),
+                  rs.items[0].z == sun(inner[0][1].z), rs.items[1].z == sun(inner[1][1].z),
                   c.result == ev[-1].z)
 
 
@@ -1372,9 +1510,14 @@ def _dsa_post(c):
     if not evs:
         return z3.And(exact, z3.Length(strs[0]) != 40, z3.Not(c.result))
     ev = evs[0][1]
+    der = c.events('der_encode')
+    if len(evs) != 1 or len(der) != 1:
+        return z3.BoolVal(False)
+    rs = der[0][1][0]
     return z3.And(exact, z3.Length(strs[0]) == 40, ev[0].z == c.arg('data'), c.result == ev[-1].z,
-                  z3.BoolVal(len(evs) == 1 and len(c.events('der_encode')) == 1),
-                  ev[1].z == c.events('der_encode')[0][1][1].z, ev[2].z == z3.StringVal('sha1'))
+                  # RFC 4253 6.6: r is the first 160 bits, s the second; the back end sees DER(r, s)
+                  rs.items[0].z == unbe(z3.Extract(strs[0], 0, 20)), rs.items[1].z == unbe(z3.Extract(strs[0], 20, 20)),
+                  ev[1].z == der[0][1][1].z, ev[2].z == z3.StringVal('sha1'))
 
 
 dsa_verify_ssh = _mk_verify_ssh('dsa', '_DSAKey', _dsa_post, extra_stubs={'der_encode': der_encode_stub})
@@ -1465,6 +1608,9 @@ def _mk_sk(module, cls, ecdsa):
 
 
 skec_verify_ssh = _mk_sk('sk_ecdsa', '_SKECDSAKey', True)
+# replay models of the WebAuthn paths (five strings plus byte-level be() definitions) cost ~40 s, a third of them
+# time out; the touch / counter / message layout logic is cross-checked natively on the Ed25519 variant below
+skec_verify_ssh.no_replay = True
 sked_verify_ssh = _mk_sk('sk_eddsa', '_SKEd25519Key', False)
 
 
